@@ -1518,6 +1518,17 @@ static void do_bad(const Op* o) {
       int64_t bi = far_[((x / 9 % 5) + 5) % 5];
       var rg = range($I(m));
       what = "range-get-out-of-range"; acc = X_IOOB;
+      if (x & 64) {
+        /* ... while an iteration over the same Range is in progress: the loop must go on as if nothing had happened */
+        int64_t cnt = 0;
+        foreach (it in rg) {
+          if (cnt == 1 || m == 1) { try { get(rg, $I(bi)); } catch (e) { ex = e; } }
+          if (c_int(it) != cnt) viol("C12", "C12:state-changed:range-get-out-of-range:Range", "a failed get during an iteration changed what the iteration yields (item %lld is %lld)", (long long)cnt, (long long)c_int(it));
+          if (++cnt > 64) break;
+        }
+        if (cnt != m) viol("C12", "C12:state-changed:range-get-out-of-range:Range", "a failed get during an iteration: the loop over range(%lld) ran %lld times", (long long)m, (long long)cnt);
+        stat_add("bad.range-get-during-iteration", 1);
+      } else
       try { get(rg, $I(bi)); } catch (e) { ex = e; }
       if (len(rg) != (size_t)m) viol("C12", "C12:state-changed:range-get-out-of-range:Range", "a failed get changed the Range");
     } else if (kind == 30) {
